@@ -149,6 +149,11 @@ func (env *Env) Run(c *Case) *Result {
 			if restoreCwd != "" {
 				os.Chdir(restoreCwd)
 			}
+			if c.Opts.Massive {
+				// a massive-mode call may return while its workers are still running (subject of C11); let them
+				// finish so that late filesystem effects are part of this case's snapshot, not of the next one's
+				LeakScan(2 * time.Second)
+			}
 			res.After = Snap(snapRoot)
 			if env.Chrooted {
 				// remove anything that escaped into the chroot root so later cases start clean
